@@ -184,6 +184,8 @@ def step(objs, st, o):
                 r = np.diff(a, n=int(arg), axis=-1)
             elif name == "unique":
                 r = np.unique(a, axis=-1)
+            elif name == "unique_obs":
+                return ["obs", ER.proj_any(np.unique(a, axis=-1))]
             elif name == "astype":
                 r = a.astype(a.dtype)
             elif name in ("sum", "max", "min", "mean", "argmax", "argmin"):
